@@ -23,7 +23,8 @@ enum {
   VERIF_MEMORY_ORDER_ACQ_REL = 4,
   VERIF_MEMORY_ORDER_SEQ_CST = 5
 };
-#define VERIF_IS_ACQUIRE(mo) ((mo) == VERIF_MEMORY_ORDER_ACQUIRE || (mo) == VERIF_MEMORY_ORDER_ACQ_REL || (mo) == VERIF_MEMORY_ORDER_SEQ_CST || (mo) == VERIF_MEMORY_ORDER_CONSUME)
+/* memory_order_consume is NOT an acquire: it orders only data-dependent accesses, and client data does not depend on the lock word */
+#define VERIF_IS_ACQUIRE(mo) ((mo) == VERIF_MEMORY_ORDER_ACQUIRE || (mo) == VERIF_MEMORY_ORDER_ACQ_REL || (mo) == VERIF_MEMORY_ORDER_SEQ_CST)
 #define VERIF_IS_RELEASE(mo) ((mo) == VERIF_MEMORY_ORDER_RELEASE || (mo) == VERIF_MEMORY_ORDER_ACQ_REL || (mo) == VERIF_MEMORY_ORDER_SEQ_CST)
 
 uint64_t nondet_u64(void);
